@@ -419,7 +419,10 @@ func (tg *textGen) hostile(idx int64, r *Rng, d asm.Dialect, cfg asm.Config) (st
 		case x < 16 && r.Bool():
 			// lines whose operands sit at the ends of the assembler's number range (the cost of a call follows the
 			// size of the input, not the magnitude of its numbers - whatever the core size)
-			lits := []string{"2147483647", "-2147483647", "2147483646", "-2147483646", "-2147483648", "2147483648", "1073741824", "-1073741823", "4294967295", "-0", "0"}
+			lits := []string{"2147483647", "-2147483647", "2147483646", "-2147483646", "1073741824", "-1073741823", "-0", "0"}
+			if r.Chance(1, 5) {
+				lits = append(lits, "-2147483648", "2147483648", "4294967295") // beyond the range: the first of them ends the assembly
+			}
 			var b strings.Builder
 			for k, n := 0, 1+r.Intn(60); k < n; k++ {
 				op := []string{"dat", "mov", "add", "jmp", "djn", "spl"}[r.Intn(6)]
